@@ -98,6 +98,9 @@ def _cases(tier, r):
         out.append(("toy1", dict(u=u_, guess_off=0.03), "low", "inside", 1.0, par_))
     if tier == "thorough":
         out.append(("toy2", dict(u=1e-4, guess_off=-0.04), "low", "inside", 1.0, True))
+    # GeV-like numbers with the starting guess typed as INTEGERS (Fields([200]) instead of Fields([200.0])): an approximate guess like any other
+    for par_ in ((True, False) if tier == "quick" else (True, False, True)):
+        out.append(("toy1", dict(u=100.0, int_guess=True), "low", "inside", 1.0, par_))
     return out
 
 
@@ -108,6 +111,7 @@ def _setup(kind, params, phase, rng_kind):
     from WallGo.fields import Fields
     params = dict(params)
     guess_off = params.pop("guess_off", 0.0)
+    int_guess = params.pop("int_guess", False)
     if kind == "toy1":
         ref = models.toy1_class()(**params)
         Tc = ref.Tc()
@@ -164,6 +168,8 @@ def _setup(kind, params, phase, rng_kind):
             exact_V = lambda T: float(model.VLow(T))   # noqa: E731
     if guess_off:
         guess = Fields((np.asarray(guess)[0] * (1.0 + guess_off)).tolist())
+    if int_guess:
+        guess = Fields([int(round(float(x_))) for x_ in np.asarray(guess)[0]])
     fe = FreeEnergy(model, Tn, guess)
     fe.disableAdaptiveInterpolation()
     if rng_kind == "inside":
